@@ -1,7 +1,9 @@
 (* C10 — sufficiency verdicts are exactly the published criteria.
-   Statements only; proofs are in Proofs/SufficiencyProofs.v; the model is Model/Sufficiency.v (criteria classes and the
-   way the six data classes call them), its parameters (check sequences, thresholds, constructor flags) are regenerated
-   from the source on every run (Generated/SufficiencyGen.v) and enter through [code_params] (Model/SufficiencyRun.v).
+   Statements only; proofs are in Proofs/SufficiencyProofs.v; the model is Model/Sufficiency.v ([criteria]: the criteria
+   classes; [dataclass]: the way the six data classes call them), its parameters (check sequences, thresholds,
+   constructor flags, off-cycle target, rows that carry data, rounding of the day sums, added usage column) are
+   regenerated from the source on every run (Generated/SufficiencyGen.v) and enter through [code_params]
+   (Model/SufficiencyRun.v).
 
    The declarative side ([violates_baseline], [violates_reporting], Model/Sufficiency.v) is the statement's list:
    span outside 329-365 days; under 90 % of the span in whole days with valid usage / valid temperature / both (each
@@ -9,8 +11,9 @@
    coverage; negative usage of a non-electric baseline; no data at all.
 
    Part A: theorems about the model for every parameter record (they never depend on the regenerated file).
-   Part B (end of the file): the regenerated parameters say what the statement says, and what follows for the code
-   as it is now, including the refuted corners (recorded findings C10-F1 .. F4). *)
+   Part B (end of the file): the regenerated parameters are the statement's, hence the full statement C10_statement
+   holds for the code as it is now - with no guard besides the representation invariant [frame_wf] (a frame without a
+   usage column carries no usage value). *)
 From Coq Require Import ZArith QArith List Bool.
 From V Require Import Model.Sufficiency Model.SufficiencyRun Generated.SufficiencyGen Proofs.SufficiencyProofs.
 Import ListNotations.
@@ -18,24 +21,36 @@ Open Scope Z_scope.
 
 (* ---- the full statement, for the parameters the code has now ---- *)
 Definition C10_statement : Prop :=
-  forall f w el cx fr,
-    exists dq ws, dataclass code_params f w el cx fr = Accepted dq ws /\
+  forall f w el cx fr, frame_wf fr ->
+    exists dq ws, dataclass code_params f w el cx fr = Accepted dq ws /\ NoDup dq /\
       forall n, In n dq <-> match w with Baseline => violates_baseline f el fr n | Reporting => violates_reporting f fr n end.
 
 (* ======================================================= Part A ======================================================= *)
 
-(* ---- baseline: soundness and completeness of the reported set, for every parameter record that says what the
-   statement says (any order of the checks) ---- *)
+(* ---- the full statement for every parameter record that is the statement's ---- *)
+Theorem C10_statement_for : forall p, params_exact p = true -> forall f w el cx fr, frame_wf fr ->
+  exists dq ws, dataclass p f w el cx fr = Accepted dq ws /\ NoDup dq /\
+    forall n, In n dq <-> match w with Baseline => violates_baseline f el fr n | Reporting => violates_reporting f fr n end.
+Proof. exact statement_l. Qed.
+Print Assumptions C10_statement_for.
+
+Example C10_statement_for_witness : params_exact published = true /\
+  frame_wf (mkframe true false (ex_full 340)) /\ frame_wf (mkframe false false (ex_no_usage 340)) /\ frame_wf ex_rep_partial.
+Proof. exact (conj ex_published_exact ex_frames_wf). Qed.
+
+(* ---- baseline: soundness and completeness of the reported set, for every parameter record with the published
+   thresholds and sets of checks (any order of the checks) ---- *)
 Theorem C10_baseline_dq_exact : forall p f el cx fr,
-  params_ok p = true -> p_offcycle_dq p = false -> f_has_obs fr = true ->
+  params_ok p = true -> p_offcycle_dq p = false -> frame_wf fr ->
+  f_has_obs fr = true \/ p_baseline_adds_usage p f = true ->
   exists dq ws, dataclass p f Baseline el cx fr = Accepted dq ws /\ NoDup dq /\
     forall n, In n dq <-> violates_baseline f el fr n.
 Proof. exact baseline_dq_exact_l. Qed.
 Print Assumptions C10_baseline_dq_exact.
 
-Example C10_baseline_witness : params_ok published = true /\ p_offcycle_dq published = false /\
+Example C10_baseline_witness :
   dataclass published Daily Baseline false cx0 (mkframe true false (ex_full 340)) = Accepted [] [].
-Proof. split; [reflexivity|split; [reflexivity|exact (proj2 ex_baseline_clean)]]. Qed.
+Proof. exact ex_baseline_clean. Qed.
 
 (* on / one day past the 90 % threshold and at the four span limits *)
 Example C10_baseline_threshold_witness :
@@ -53,17 +68,29 @@ Proof. exact ex_span_limits. Qed.
 
 (* ---- reporting ---- *)
 Theorem C10_reporting_dq_exact : forall p f el cx fr,
-  params_ok p = true -> p_offcycle_dq p = false -> p_reporting_flag p f = true -> usage_irrelevant fr ->
+  params_ok p = true -> p_offcycle_dq p = false -> p_reporting_flag p f = true ->
+  p_span_ignores_usage p = true \/ usage_irrelevant fr ->
   exists dq ws, dataclass p f Reporting el cx fr = Accepted dq ws /\ NoDup dq /\
     forall n, In n dq <-> violates_reporting f fr n.
 Proof. exact reporting_dq_exact_l. Qed.
 Print Assumptions C10_reporting_dq_exact.
 
 Example C10_reporting_witness :
-  usage_irrelevant (mkframe false false (ex_temp_gap 300 150 31 None)) /\
   dq_of (dataclass published Daily Reporting true cx0 (mkframe false false (ex_temp_gap 300 150 31 None)))
   = [TooManyDaysMissingData; TooManyDaysMissingTemperature; MissingMonthlyTemperature].
 Proof. exact ex_reporting_verdict. Qed.
+
+(* the four repaired corners, evaluated: a baseline without any usage is reported as having no data; an off-cycle read
+   only warns; temperature-only hourly reporting data is qualified; reporting data with usage on part of the days is
+   judged against the whole span *)
+Example C10_repaired_corners_witness :
+  dataclass published Daily Baseline true cx0 (mkframe false false (ex_no_usage 340))
+  = Accepted [NoData; TooManyDaysMissingData; TooManyDaysMissingMeter; TooManyDaysMissingTemperature] [] /\
+  dataclass published Billing Baseline true cx_off (mkframe true false (ex_full 340)) = Accepted [] [OffcycleWarning] /\
+  dataclass published Hourly Reporting true cx0 (mkframe true false (ex_no_usage 340)) = Accepted [] [] /\
+  dq_of (dataclass published Daily Reporting true cx0 ex_rep_partial)
+  = [TooManyDaysMissingData; TooManyDaysMissingTemperature; MissingMonthlyTemperature].
+Proof. exact ex_repaired_corners. Qed.
 
 (* ---- exactly at each threshold: binary64 comparisons against a constant that passes the table are the integer
    comparisons of the model, for every pair of counts up to 1000 (the table of the regenerated constants is Part B) ---- *)
@@ -78,14 +105,14 @@ Print Assumptions C10_threshold_exact_for.
 Theorem C10_warnings_never_change_verdict : forall p f w el cx cx' fr,
   p_offcycle_dq p = false \/ x_offcycle cx = x_offcycle cx' ->
   dq_of (dataclass p f w el cx fr) = dq_of (dataclass p f w el cx' fr).
-Proof. exact warnings_never_change_verdict_l. Qed.
+Proof. exact warnings_never_change_verdict_dc. Qed.
 Print Assumptions C10_warnings_never_change_verdict.
 
 (* the magnitude of the usage values (extreme values) never changes the verdict: only presence and sign do *)
 Theorem C10_usage_magnitude_never_changes_verdict : forall p f w el cx o g rows rows',
   Forall2 same_shape rows rows' ->
   dq_of (dataclass p f w el cx (mkframe o g rows)) = dq_of (dataclass p f w el cx (mkframe o g rows')).
-Proof. exact usage_magnitude_never_changes_verdict_l. Qed.
+Proof. exact usage_magnitude_never_changes_verdict_dc. Qed.
 Print Assumptions C10_usage_magnitude_never_changes_verdict.
 
 Example C10_usage_magnitude_witness :
@@ -99,73 +126,73 @@ Theorem C10_warnings_spec : forall p f w el cx fr dq ws n,
   dataclass p f w el cx fr = Accepted dq ws ->
   (In n ws <->
    match n with
-   | ExtremeValues => In CExtreme (sequence_of p f w) /\ is_reporting_flag p f w = false /\ has_extreme (f_rows fr) = true
+   | ExtremeValues => In CExtreme (sequence_of p f w) /\ is_reporting_flag p f w = false
+                      /\ has_extreme (f_rows (handed_frame p f w fr)) = true
    | UtcIndex => x_utc cx = true
    | UnverifiableTemperature => is_hourly f = false /\ x_unverifiable cx = true
    | OffcycleWarning => is_billing f = true /\ x_offcycle cx = true /\ p_offcycle_dq p = false
    end).
-Proof. exact warnings_spec_l. Qed.
+Proof. exact warnings_spec_dc. Qed.
 Print Assumptions C10_warnings_spec.
 
 (* ---- every well-formed input is accepted ---- *)
 Theorem C10_accepts_wellformed : forall p f w el cx fr,
-  is_reporting_flag p f w = true \/ f_has_obs fr = true ->
+  is_reporting_flag p f w = true \/ f_has_obs fr = true \/ (w = Baseline /\ p_baseline_adds_usage p f = true) ->
   exists dq ws, dataclass p f w el cx fr = Accepted dq ws.
-Proof. exact dataclass_accepts. Qed.
+Proof. exact dataclass_accepts_dc. Qed.
 Print Assumptions C10_accepts_wellformed.
 
 Theorem C10_raises_exactly : forall p f w el cx fr e,
-  dataclass p f w el cx fr = Raised e <-> e = AttributeError /\ is_reporting_flag p f w = false /\ f_has_obs fr = false.
-Proof. exact dataclass_raises. Qed.
+  dataclass p f w el cx fr = Raised e <->
+  e = AttributeError /\ is_reporting_flag p f w = false /\ f_has_obs fr = false /\ (w = Reporting \/ p_baseline_adds_usage p f = false).
+Proof. exact dataclass_raises_dc. Qed.
 Print Assumptions C10_raises_exactly.
 
-(* a baseline whose usage is entirely missing (the data class drops the column) is not accepted (C10-F3) *)
-Theorem C10_accepts_wellformed_refuted : forall p f el cx rows,
-  dataclass p f Baseline el cx (mkframe false false rows) = Raised AttributeError.
-Proof. exact refuted_no_usage_l. Qed.
-Print Assumptions C10_accepts_wellformed_refuted.
+(* ---- regression: each of the repairs C10-2 .. C10-5 is needed - a parameter record without it leaves the statement,
+   and what it reports instead is characterised exactly (the findings C10-F1 .. F4 as they were) ---- *)
+Theorem C10_regression_added_usage_column : forall p f el cx g rows, p_baseline_adds_usage p f = false ->
+  dataclass p f Baseline el cx (mkframe false g rows) = Raised AttributeError.
+Proof. exact without_added_column_l. Qed.
+Print Assumptions C10_regression_added_usage_column.
 
-(* ---- where the model leaves the statement, what it reports instead is characterised exactly ---- *)
-(* off-cycle billing reads, when they are appended to .disqualification (C10-F1) *)
-Theorem C10_offcycle_changes_verdict_refuted : forall p el fr,
+Theorem C10_regression_offcycle_warning : forall p el fr,
   params_ok p = true -> p_offcycle_dq p = true -> f_has_obs fr = true ->
   In OffcycleReads (dq_of (dataclass p Billing Baseline el cx_off fr)) /\
   ~ In OffcycleReads (dq_of (dataclass p Billing Baseline el cx0 fr)) /\
   ~ violates_baseline Billing el fr OffcycleReads.
-Proof. exact refuted_offcycle_l. Qed.
-Print Assumptions C10_offcycle_changes_verdict_refuted.
+Proof. exact without_offcycle_warning_l. Qed.
+Print Assumptions C10_regression_offcycle_warning.
 
-(* hourly reporting data while the criteria class is not told that it is reporting data (C10-F2) *)
-Theorem C10_hourly_reporting_as_coded : forall p el cx fr n,
+Theorem C10_regression_hourly_reporting_flag : forall p el cx fr n,
   params_ok p = true -> p_reporting_flag p Hourly = false -> f_has_obs fr = true ->
-  (In n (dq_of (dataclass p Hourly Reporting el cx fr)) <-> violates_reporting_as_baseline fr n).
+  (In n (dq_of (criteria p Hourly Reporting el cx fr)) <-> violates_reporting_as_baseline fr n).
 Proof. exact hourly_reporting_as_coded_l. Qed.
-Print Assumptions C10_hourly_reporting_as_coded.
+Print Assumptions C10_regression_hourly_reporting_flag.
 
-Theorem C10_hourly_reporting_refuted : forall p el cx n, (0 < n)%nat ->
+Theorem C10_regression_hourly_reporting_no_data : forall p el cx n, (0 < n)%nat ->
   params_ok p = true -> p_reporting_flag p Hourly = false ->
   let fr := mkframe true false (ex_no_usage n) in
   In NoData (dq_of (dataclass p Hourly Reporting el cx fr)) /\ ~ violates_reporting Hourly fr NoData.
-Proof. exact hourly_reporting_no_usage_l. Qed.
-Print Assumptions C10_hourly_reporting_refuted.
+Proof. exact without_reporting_flag_l. Qed.
+Print Assumptions C10_regression_hourly_reporting_no_data.
 
-(* reporting data with any usage column: valid days by temperature, span over the rows that also have usage (C10-F4) *)
-Theorem C10_reporting_as_coded : forall p f el cx fr n,
-  params_ok p = true -> p_reporting_flag p f = true ->
-  (In n (dq_of (dataclass p f Reporting el cx fr)) <->
+Theorem C10_regression_reporting_span : forall p f el cx fr n,
+  params_ok p = true -> p_reporting_flag p f = true -> p_span_ignores_usage p = false ->
+  (In n (dq_of (criteria p f Reporting el cx fr)) <->
    violates_reporting_span_over_usage f fr n \/ (n = OffcycleReads /\ offcycle_dq p f cx = true)).
 Proof. exact reporting_as_coded_l. Qed.
-Print Assumptions C10_reporting_as_coded.
+Print Assumptions C10_regression_reporting_span.
 
-Theorem C10_reporting_partial_usage_refuted : forall p f el cx, params_ok p = true -> p_reporting_flag p f = true ->
+Theorem C10_regression_reporting_partial_usage : forall p f el cx, params_ok p = true -> p_reporting_flag p f = true ->
+  p_span_ignores_usage p = false ->
   ~ In TooManyDaysMissingTemperature (dq_of (dataclass p f Reporting el cx ex_rep_partial)) /\
   violates_reporting f ex_rep_partial TooManyDaysMissingTemperature.
-Proof. exact reporting_partial_usage_l. Qed.
-Print Assumptions C10_reporting_partial_usage_refuted.
+Proof. exact without_span_repair_l. Qed.
+Print Assumptions C10_regression_reporting_partial_usage.
 
-(* the hypotheses of the four theorems above are satisfiable: the statement's parameters with the constructor flags of
-   today's code *)
-Example C10_as_coded_witness : params_ok as_coded = true /\ p_reporting_flag as_coded Hourly = false /\ p_offcycle_dq as_coded = true /\
+(* the hypotheses of the regression theorems are satisfiable: the statement's thresholds with the glue as it was *)
+Example C10_regression_witness : params_ok as_coded = true /\ p_reporting_flag as_coded Hourly = false /\ p_offcycle_dq as_coded = true /\
+  p_span_ignores_usage as_coded = false /\ p_baseline_adds_usage as_coded Daily = false /\
   dq_of (dataclass as_coded Hourly Reporting true cx0 (mkframe true false (ex_no_usage 340)))
   = [NoData; TooManyDaysMissingData; TooManyDaysMissingTemperature] /\
   dq_of (dataclass as_coded Daily Reporting true cx0 ex_rep_partial) = [MissingMonthlyTemperature] /\
@@ -178,11 +205,6 @@ Theorem C10_frame_expansion : forall t step n off obs tp cov g a,
 Proof. exact expand_seg_simple_eq. Qed.
 Print Assumptions C10_frame_expansion.
 
-(* the full statement fails in the model of the unchanged code (a baseline without any usage raises) *)
-Theorem C10_statement_refuted : ~ C10_statement.
-Proof. exact statement_refuted_l. Qed.
-Print Assumptions C10_statement_refuted.
-
 (* ======================================================= Part B =======================================================
    the regenerated parameters (checked inside the kernel against what the source says now) *)
 
@@ -191,10 +213,11 @@ Theorem C10_code_min_length : code_min_len = 329 /\ gen_max_baseline_length = 36
 Proof. vm_compute. split; reflexivity. Qed.
 Print Assumptions C10_code_min_length.
 
-(* thresholds, span limits and the *sets* of checks of the six entry points are the statement's (any order) *)
-Theorem C10_code_params_published : params_ok code_params = true.
+(* the valid-day sums are rounded before they are truncated (the repair of D20 / C10-F5: the binary64 sum of 1/24-day
+   periods can be one ulp below a whole number; the summation itself is outside the exact-arithmetic model) *)
+Theorem C10_code_day_sum_rounded : gen_day_sum_rounded = true.
 Proof. vm_compute. reflexivity. Qed.
-Print Assumptions C10_code_params_published.
+Print Assumptions C10_code_day_sum_rounded.
 
 (* the two binary64 constants of the code pass the table: 1000 x 1001 quotients each, evaluated inside the kernel *)
 Theorem C10_daily_coverage_table : threshold_table THRESHOLD_BOUND gen_min_fraction_daily_coverage = true.
@@ -221,49 +244,37 @@ Example C10_threshold_witness :
   frac_lt gen_min_fraction_daily_coverage 27 30 = false.
 Proof. vm_compute. repeat split. Qed.
 
-(* ---- the code as it is: the statement inside [guard] (baseline data has a usage column; reporting data is declared as
-   such to the criteria class and its usage column is absent or complete; no off-cycle billing read, or those go to
-   the warnings) ---- *)
-Theorem C10_statement_partial : forall f w el cx fr, guard f w cx fr ->
-  exists dq ws, dataclass code_params f w el cx fr = Accepted dq ws /\
-    forall n, In n dq <-> match w with Baseline => violates_baseline f el fr n | Reporting => violates_reporting f fr n end.
-Proof. exact (statement_partial_l C10_code_params_published). Qed.
-Print Assumptions C10_statement_partial.
+(* thresholds, span limits and the *sets* of checks of the six entry points are the statement's (any order) *)
+Theorem C10_code_params_published : params_ok code_params = true.
+Proof. vm_compute. reflexivity. Qed.
+Print Assumptions C10_code_params_published.
 
-Example C10_statement_partial_witness : guard Daily Baseline cx0 (mkframe true false (ex_full 340)).
-Proof. exact (proj1 ex_baseline_clean). Qed.
+(* ... and so is the glue of the six data classes: reporting data is declared as such (all three families), off-cycle
+   reads go to the warnings, the rows that carry data ignore the usage column of reporting data, a baseline frame
+   always reaches the criteria class with a usage column *)
+Theorem C10_code_params_exact : params_exact code_params = true.
+Proof. vm_compute. reflexivity. Qed.
+Print Assumptions C10_code_params_exact.
 
-(* ... and with the one extra name it can report *)
-Theorem C10_baseline_dq_exact_code : forall f el cx fr, f_has_obs fr = true ->
-  exists dq ws, dataclass code_params f Baseline el cx fr = Accepted dq ws /\ NoDup dq /\
-    forall n, In n dq <->
-      violates_baseline f el fr n \/ (n = OffcycleReads /\ f = Billing /\ x_offcycle cx = true /\ gen_offcycle_dq = true).
-Proof. exact (baseline_dq_exact_code_l C10_code_params_published). Qed.
-Print Assumptions C10_baseline_dq_exact_code.
+(* ---- the full statement holds for the code as it is ---- *)
+Theorem C10_statement_holds : C10_statement.
+Proof. exact (statement_l code_params C10_code_params_exact). Qed.
+Print Assumptions C10_statement_holds.
 
-Theorem C10_reporting_dq_exact_code : forall f el cx fr, gen_reporting_flag f = true -> usage_irrelevant fr ->
-  exists dq ws, dataclass code_params f Reporting el cx fr = Accepted dq ws /\ NoDup dq /\
-    forall n, In n dq <->
-      violates_reporting f fr n \/ (n = OffcycleReads /\ f = Billing /\ x_offcycle cx = true /\ gen_offcycle_dq = true).
-Proof. exact (reporting_dq_exact_code_l C10_code_params_published). Qed.
-Print Assumptions C10_reporting_dq_exact_code.
+(* every frame is accepted by the six data classes of the code as it is *)
+Theorem C10_code_accepts_wellformed : forall f w el cx fr, exists dq ws, dataclass code_params f w el cx fr = Accepted dq ws.
+Proof.
+  intros f w el cx fr. apply dataclass_accepts_dc. destruct w.
+  - right. right. split; [reflexivity|]. exact (ef_add _ (params_exact_facts _ C10_code_params_exact) f).
+  - left. exact (ef_rep _ (params_exact_facts _ C10_code_params_exact) f).
+Qed.
+Print Assumptions C10_code_accepts_wellformed.
 
-(* ---- the refuted corners, for the code as it is (each under the regenerated flag that causes it) ---- *)
-Theorem C10_code_offcycle_refuted : gen_offcycle_dq = true -> forall el fr, f_has_obs fr = true ->
-  In OffcycleReads (dq_of (dataclass code_params Billing Baseline el cx_off fr)) /\
-  ~ In OffcycleReads (dq_of (dataclass code_params Billing Baseline el cx0 fr)) /\
-  ~ violates_baseline Billing el fr OffcycleReads.
-Proof. intros H el fr. exact (refuted_offcycle_l code_params el fr C10_code_params_published H). Qed.
-Print Assumptions C10_code_offcycle_refuted.
-
-Theorem C10_code_hourly_reporting_refuted : gen_reporting_flag Hourly = false ->
-  let fr := mkframe true false (ex_no_usage 340) in
-  In NoData (dq_of (dataclass code_params Hourly Reporting true cx0 fr)) /\ ~ violates_reporting Hourly fr NoData.
-Proof. intro H. exact (hourly_reporting_no_usage_l code_params true cx0 340 ltac:(repeat constructor) C10_code_params_published H). Qed.
-Print Assumptions C10_code_hourly_reporting_refuted.
-
-Theorem C10_code_reporting_partial_usage_refuted : gen_reporting_flag Daily = true ->
-  ~ In TooManyDaysMissingTemperature (dq_of (dataclass code_params Daily Reporting true cx0 ex_rep_partial)) /\
-  violates_reporting Daily ex_rep_partial TooManyDaysMissingTemperature.
-Proof. intro H. exact (reporting_partial_usage_l code_params Daily true cx0 C10_code_params_published H). Qed.
-Print Assumptions C10_code_reporting_partial_usage_refuted.
+(* off-cycle reads never change the verdict of the code as it is *)
+Theorem C10_code_warnings_never_change_verdict : forall f w el cx cx' fr,
+  dq_of (dataclass code_params f w el cx fr) = dq_of (dataclass code_params f w el cx' fr).
+Proof.
+  intros. apply warnings_never_change_verdict_dc. left.
+  exact (ef_off _ (params_exact_facts _ C10_code_params_exact)).
+Qed.
+Print Assumptions C10_code_warnings_never_change_verdict.
